@@ -269,6 +269,16 @@ def do_comp(ex, node, st, kind):
     try:
         conds = [ex.truth(ex.eval(c, s2)) for c in g.ifs]
         if kind == "dict":
+            # {c: CONST for c in seq}: the keys are the sequence's elements, every value the same constant
+            tnames = {n_.id for n_ in ast.walk(g.target) if isinstance(n_, ast.Name)}
+            if (not conds and isinstance(g.target, ast.Name) and isinstance(node.key, ast.Name) and node.key.id == g.target.id
+                    and src.elem is S.Str and not (tnames & {n_.id for n_ in ast.walk(node.value) if isinstance(n_, ast.Name)})):
+                vx = ex.eval(node.value, st)
+                if isinstance(vx, VNum):
+                    from .builtins_model import set_of_seq
+                    from .core import to_real
+                    ks = set_of_seq(ex, st, src)
+                    return VDict(ks.term, z3.K(S.PyStr, to_real(vx)), S.Real if vx.kind in ("real", "int") else S.Float)
             raise OutOfReach("dict comprehension over symbolic sequence")
         body = ex.eval(node.elt, s2)
     finally:
